@@ -14,6 +14,12 @@ def main():
     mons = spec.monitors()
     g = Gen(sd, profile, mons, overrides=spec.overrides(profile), avoid=spec.avoid_for(sd, runner.base_opts(prop)))
     w = g.run()
+    if not any(m.violations for m in mons) and g.branch_findings:
+        # the violation arose in a what-if branch: show that branch (replayed from its own trace)
+        from .world import run_trace
+        mons = spec.monitors()
+        w = run_trace(g.cfg, g.branch_findings[0][1], mons)
+        print('(what-if branch; trace of %d events)' % len(g.branch_findings[0][1]))
     print(json.dumps(w.cfg, default=repr))
     for s in w.steps[-int(sys.argv[5]) if len(sys.argv) > 5 else 0:]:
         print(json.dumps(s.brief(), default=repr)[:600])
